@@ -47,6 +47,10 @@ func c19BadConfigs(rulesOK string) []badCfg {
 		{"empty-selection-disabled", []string{"-enable=assignOp", "-disable=assignOp"}, []string{"-enable=assignOp", "-disable=assignOp"}, "empty"},
 		{"bad-param-int", []string{"-@hugeParam.sizeThreshold=abc"}, []string{"-@hugeParam.sizeThreshold=abc"}, "sizeThreshold|invalid value"},
 		{"bad-param-bool", []string{"-@captLocal.paramsOnly=maybe"}, []string{"-@captLocal.paramsOnly=maybe"}, "paramsOnly|invalid"},
+		// the worker count of the command (the analysis front-ends have no such flag: analysis == nil, skipped there)
+		{"concurrency=0", []string{"-concurrency=0"}, nil, "concurrency"},
+		{"concurrency=-1", []string{"-concurrency=-1"}, nil, "concurrency"},
+		{"concurrency=x", []string{"-concurrency=x"}, nil, "concurrency"},
 		{"unknown-flag", []string{"-nosuchflag"}, []string{"-nosuchflag"}, "nosuchflag|not defined"},
 		{"unknown-param", []string{"-@nosuch.param=1"}, []string{"-@nosuch.param=1"}, "nosuch|not defined"},
 	}
@@ -105,8 +109,17 @@ func c19(args []string) int {
 					flags := bc.cli
 					if strings.HasSuffix(fe, "-analysis") {
 						flags = bc.analysis
+						if flags == nil {
+							return // this front-end has no such setting
+						}
 					}
 					res, class := run(fe, flags, pkgs)
+					if res.TimedOut {
+						ev.Eval(1)
+						ev.Violate(evidence.Violation{Key: fe + "|" + bc.id + "|hang", What: "invalid configuration makes the front-end hang (killed after 3 minutes)", Observed: fmt.Sprintf("%s %v %v", fe, flags, pkgs),
+							Replay: map[string]interface{}{"kind": "config", "frontend": fe, "argv": append(append([]string{}, flags...), pkgs...), "workspace": "module w: a/a.go b/b.go c/c.go"}})
+						return
+					}
 					out := res.Stdout + res.Stderr
 					ev.Eval(1)
 					ev.Nontrivial(fmt.Sprintf("cfg|%s|%s|%d", bc.id, fe, len(pkgs)))
@@ -152,6 +165,9 @@ func c19(args []string) int {
 	sort.Strings(ks)
 	for _, k := range ks {
 		m := classes[k]
+		if len(m) < 3 {
+			continue // a run was cut short (reported above)
+		}
 		if m["1"] != m["2"] || m["1"] != m["3"] {
 			parts := strings.SplitN(k, "|", 2)
 			ev.Violate(evidence.Violation{Key: parts[1] + "|" + parts[0] + "|depends-on-package-count", What: "outcome of an invalid configuration depends on how many packages are analysed",
